@@ -181,12 +181,65 @@ UNITS += [
          lifts={"ctor": BB_CTOR, "arrive": bb_arrive({1: LOOP_ROUNDS, 2: LOOP_SCAN, "count": 2})},
          extra_flags=["--unsigned-overflow-check"], solver=["--sat-solver", "cadical"],   # MiniSat needs ~65 s, CaDiCaL ~12 s
          funcs=[BCPP + ": detail::barrier_algorithm_base::arrive"], min_obligations=40),
-    Unit("barrier.base_arrive.order", "barrier_base.c", defines=["U_BOUNDED", "VX_MAX_EXPECTED=6"], kind="bounded", unwind=5, solver=["--sat-solver", "cadical"], object_bits=10,
+] + [
+    Unit("barrier.base_arrive.order.e%d" % e, "barrier_base.c", defines=["U_BOUNDED", "VX_MAX_EXPECTED=6", "VX_EXPECTED=%d" % e],
+         kind="bounded", unwind=5, solver=["--sat-solver", "cadical"], object_bits=10,
+         # expected <= 6: at most 3 rounds (+ the exit test) and at most 3 nodes per round to scan (+ wrap)
+         extra_flags=["--unwindset", "base_arrive.0:4,base_arrive.1:4"],
          lifts={"ctor": BB_CTOR, "arrive": bb_arrive({"count": 2})}, loop_contracts=False, no_replay=True,
-         doc="serialized arrivals, expected <= 6, every start index, one phase from an arbitrary phase-boundary state (any phase "
+         doc="serialized arrivals, expected == %d, every start index, one phase from an arbitrary phase-boundary state (any phase "
              "byte incl. 254->0; touched tickets == token, all others arbitrary): exactly the expected-th arrival returns true "
-             "and the boundary state is re-established for expected and expected-1 (inductive step over phases and drops)",
+             "and the boundary state is re-established for expected and expected-1 (inductive step over phases and drops)" % e,
+         funcs=[BCPP + ": detail::barrier_algorithm_base::arrive (bounded stand-in)"], min_obligations=10,
+         tier="quick" if e <= 4 else "thorough")   # e5/e6 take 35-45 s each
+    for e in (1, 2, 3, 4, 5, 6)
+] + [
+    Unit("barrier.base_arrive.order.step", "barrier_base.c", defines=["U_BOUNDED", "U_STEP", "VX_MAX_EXPECTED=8"],
+         kind="bounded", unwind=6, solver=["--sat-solver", "cadical"], object_bits=10,
+         extra_flags=["--unwindset", "base_arrive.0:5,base_arrive.1:6"],
+         lifts={"ctor": BB_CTOR, "arrive": bb_arrive({"count": 2})}, loop_contracts=False, no_replay=True,
+         doc="expected <= 8: one serialized arrival from any state satisfying a hand-written fill-count invariant of the tree "
+             "(any earlier arrivals, any start indices, any phase byte): invariant re-established, returns true iff it is the "
+             "expected-th arrival, all tickets full afterwards; base case asserted (inductive step; induction on paper)",
          funcs=[BCPP + ": detail::barrier_algorithm_base::arrive (bounded stand-in)"], min_obligations=10),
+]
+
+# ------------------------------------------------------------------------------------------------- barrier<> (class template)
+B_ATOMS = [
+    Sub(r"\b(?:pika::)?detail::barrier_phase_t\b", "barrier_phase_t", None),
+    Call(r"(?<![\w.>])phase\.load", "phase_load(&self->phase)", None),
+    Call(r"(?<![\w.>])phase\.store", "phase_store(&self->phase, {0})", None),
+    Call(r"(?<![\w.>])expected_adjustment\.load", "adj_load(&self->expected_adjustment)", None),
+    Call(r"(?<![\w.>])expected_adjustment\.store", "adj_store(&self->expected_adjustment, {0})", None),
+    Call(r"(?<![\w.>])expected_adjustment\.fetch_sub", "adj_fetch_sub(&self->expected_adjustment, {0})", None),
+    Call(r"(?<![\w.>])base\.arrive", "base_arrive(&self->base, {0}, {1})", None),
+    Call(r"(?<![\w.>])completion", "completion_call(self)", None),
+    Sub(r"(?<![\w.>])expected\s*\+=\s*([^;]+);", r"expected_add(self, \1);", None),
+    Members(["expected"], optional=["expected"]),
+]
+LOOP_BARRIVE = """
+__CPROVER_assigns(update, BARRIER_FRAME)
+__CPROVER_loop_invariant(0 <= update && update <= g_update0 && g_arrivals == g_update0 - update && g_outstanding == g_out0 - g_arrivals)
+__CPROVER_loop_invariant(g_token_valid && old_phase == g_token && !g_completing && g_adj_read <= 0 && g_adj_read >= -VX_BIG)
+__CPROVER_loop_invariant((g_outstanding == 0 && g_arrivals > 0) ? (g_published && g_completions == 1 && self->phase == FULL(g_token) && self->expected_adjustment == 0 && self->expected == g_expected0 + g_adj_read) : (!g_published && g_completions == 0 && g_adj_stores == 0 && !g_adj_applied && self->expected == g_expected0 && self->expected_adjustment <= 0 && self->expected_adjustment >= -VX_BIG))
+"""
+UNITS += [
+    Unit("barrier.arrive", "barrier.c", defines=["U_ARRIVE"], enforce="barrier_arrive",
+         lifts={"body": Lift(BHPP, r"arrival_token arrive\(std::ptrdiff_t update = 1\)", rules=B_ATOMS, post=[Auto(None)],
+                             loops={1: LOOP_BARRIVE, "count": 1})},
+         funcs=[BHPP + ": pika::barrier<>::arrive"], min_obligations=40),
+    Unit("barrier.wait", "barrier.c", defines=["U_WAIT"], enforce="barrier_wait",
+         lifts={"poll": Lift(BHPP, r"auto const poll = \[&\]\(\)", rules=B_ATOMS),
+                "body": Lift(BHPP, r"void wait\(arrival_token&& old_phase,", rules=[
+                    Sub(r"auto const (\w+) = \[&\]\(\) \{.*?\};", "", 1),   # the lambda is lifted as its own function (key poll)
+                    Sub(r"std::chrono::duration<double>\(([^()]*)\)", r"(\1)", None),
+                    Call(r"pika::util::detail::yield_while_timeout", "yield_while_timeout_{0}(self, old_phase, {1})", None),
+                    Call(r"pika::util::yield_while", "yield_while_{0}(self, old_phase)", None)] + B_ATOMS)},
+         funcs=[BHPP + ": pika::barrier<>::wait (and its poll lambda)"], min_obligations=10),
+    Unit("barrier.arrive_and_drop", "barrier.c", defines=["U_ARRIVE_AND_DROP"], enforce="arrive_and_drop",
+         lifts={"body": Lift(BHPP, r"void arrive_and_drop\(\)", rules=B_ATOMS + [
+             Call(r"(?<![\w.>])arrive", "barrier_arrive(self, {0})", None)], post=[Auto(None)])},
+         funcs=[BHPP + ": pika::barrier<>::arrive_and_drop"], min_obligations=5),
 ]
 
 META = {
